@@ -164,7 +164,8 @@ def step_cases(draw, tier="quick"):
         x0 = [draw(st.one_of(st.integers(-30, 30), st.integers(-30, 30).map(lambda v: v * 10 ** 4), st.integers(10 ** 5, 10 ** 6))),
               draw(st.sampled_from([1, 2, 3, 5, 7, 10]))]
         h = [draw(st.integers(1, 30)), draw(st.sampled_from([1, 2, 3, 5, 7, 10, 100]))]
-        return {"mode": mode, "n": n, "n_steps": n_steps, "x0": x0, "h": h}
+        # the axis in other units (femtoseconds in SI: 1e-15; micrometres: 1e-6; ...): the map may not depend on the unit
+        return {"mode": mode, "n": n, "n_steps": n_steps, "x0": x0, "h": h, "unit_pow": draw(st.sampled_from([0, 0, -6, -12, -15, 6]))}
     if mode == "float":
         return {"mode": mode, "n": n, "n_steps": n_steps, "x0": draw(gen.fl(-10, 10)), "h": draw(gen.logpos(-3, 2))}
     return {"mode": mode, "n": n, "n_steps": n_steps, "a": draw(gen.fl(-10, 10)), "len": draw(gen.logpos(-3, 2))}
@@ -175,7 +176,8 @@ def step_grid(c):
     if c["mode"] == "rational":
         x0 = Fraction(*c["x0"])
         h = Fraction(*c["h"])
-        return np.array([float(x0 + h * k) for k in range(n)])
+        u = Fraction(10) ** int(c.get("unit_pow", 0))
+        return np.array([float((x0 + h * k) * u) for k in range(n)])
     if c["mode"] == "float":
         return c["x0"] + c["h"] * np.arange(n)
     return np.linspace(c["a"], c["a"] + c["len"], n)
@@ -183,7 +185,7 @@ def step_grid(c):
 
 def run_step(c, rec):
     import cuqi
-    tags = {"mode": c["mode"]}
+    tags = {"mode": c["mode"], "unit_pow": c.get("unit_pow", 0)}
     if rec.classify(tags, c["n_steps"] > 1):
         return
     grid = step_grid(c)
